@@ -108,6 +108,8 @@ pub mod ssh_signing;
 pub mod stacked_table;
 pub mod store;
 pub use jj_core::str_util;
+#[cfg(jj_vcs_jj_verif)]
+pub mod verif;
 pub mod submodule_store;
 #[cfg(feature = "testing")]
 pub mod test_signing_backend;
